@@ -37,6 +37,14 @@ class NumV(Val):
 
 
 @dataclass(frozen=True)
+class TallyV(NumV):
+    """An integer tally kept next to a child position: its value is (number of nodes inserted at the position of index
+    *base*'s anchor since that index was taken) - lag, i.e. <base> + <tally> is `lag` places before the anchor."""
+    base: int = 0
+    lag: int = 0
+
+
+@dataclass(frozen=True)
 class BoolV(Val):
     """An unknown boolean that could not be forked at its creation point."""
     why: str = ''
@@ -51,6 +59,7 @@ class Ref(Val):
 @dataclass(frozen=True)
 class TupleV(Val):
     items: Tuple[Val, ...]
+    names: Tuple[str, ...] = ()          # field names when the tuple is an instance of a typing.NamedTuple class
 
 
 @dataclass(frozen=True)
@@ -159,6 +168,7 @@ class IdxE:
     born: int = 0
     pos: Any = None         # (depth, k>0): this value is the 0-based enumerate() counter of the loop at that depth
     advloop: Any = None     # depth of the loop whose enumerate(start=<index>) / <index> + counter produced this position
+    ins: int = 0            # nodes inserted exactly at this index's anchor position since it was taken (capped at 3)
 
 
 @dataclass(frozen=True)
@@ -349,6 +359,8 @@ class State:
                 return 'U'
             if t is LenV:
                 return ('L', mapping[v.sym] if v.sym in mapping else skey(v.sym))
+            if t is TallyV:
+                return ('Tal', mapping[v.base] if v.base in mapping else skey(v.base), v.lag)
             if t is LamV:
                 return ('Lam', v.key, tuple([(n, vkey(x)) for n, x in v.captured]), tuple([vkey(x) for x in v.defaults]), v.depth)
             if t is PartV:
@@ -382,7 +394,7 @@ class State:
                 p, a = e.parent, e.anchor
                 k = ('i', e.kind, (mapping[p] if p in mapping else skey(p)) if p else None,
                      (mapping[a] if a in mapping else skey(a)) if a else None, e.delta, e.slack, e.const,
-                     (e.succ[0], (mapping[e.succ[1]] if e.succ[1] in mapping else skey(e.succ[1])) if e.succ[1] else None, e.succ[2]) if e.succ else None, e.pos)
+                     (e.succ[0], (mapping[e.succ[1]] if e.succ[1] in mapping else skey(e.succ[1])) if e.succ[1] else None, e.succ[2]) if e.succ else None, e.pos, e.ins)
             elif t is ListE and accum_before and e.kind == 'accum' and sym <= accum_before:
                 k = ('l', 'accum*', e.ordered, e.distinct, e.dirty)      # contents joined separately (union of templates)
             elif t is ListE:
